@@ -41,7 +41,7 @@ def cells(tier, seed):
     for kind in adapters.ALL_KINDS:
         for _ in range(n):
             c = adapters.random_config(kind, rnd)
-            c['N'], c['C'] = rnd.choice([1, 2, 3]), rnd.choice([1, 2, 3])
+            c['N'], c['C'] = rnd.choice([1, 2, 3, 4]), rnd.choice([1, 2, 3, 4, 6])
             c['input'] = rnd.choice(IN_KINDS)
             if kind in ('dwt1i', 'dwt2i') and rnd.random() < 0.5:
                 m = [rnd.random() < 0.5 for _ in range(c['J'])]
@@ -293,13 +293,51 @@ def run_cell(cell, seed):
                 bad = [str(t.dtype) for t in yn if t.dtype != dt]
                 out.append(res(HELD, case, 'M-NONE', ratio=0.0) if not bad else
                            res(VIOLATED, case, 'M-NONE', 'output dtype %s' % bad[:1]))
-    return out + drain_attach(cell)
+    # input precision different from the module's: the call may refuse (it does on this tree), but if it
+    # returns, the outputs must still have the dtype of the input.  (A refused call has touched the module's
+    # own narrower filters before refusing; the op-level precision monitor is therefore not consulted for
+    # these calls, only the dtype of what is returned.)
+    recs = attach.drain()
+    for A, xs, nm in ((A32, xs64, 'float32 module, float64 input'), (A64, xs32, 'float64 module, float32 input')):
+        case = dict(base, check='mismatched precision', combo=nm)
+        okm, ym = util.call_lib(A.apply, [x.clone() for x in xs])
+        if not okm:
+            out.append(res(HELD, case, 'M-SHAPE.dtype', 'refused: %s' % type(ym).__name__, ratio=0.0, refused=True))
+            continue
+        bad = [str(t.dtype) for t in ym if t.is_floating_point() and t.dtype != xs[0].dtype]
+        out.append(res(VIOLATED, case, 'M-SHAPE.dtype', 'outputs of dtype %s for %s' % (sorted(set(bad)), nm)) if bad else
+                   res(HELD, case, 'M-SHAPE.dtype', ratio=0.0))
+    recs += [v for v in attach.drain() if v['monitor'] == 'M-SHAPE.dtype']
+    # J = 0 (no level): the forward transforms hand the input back, whatever the module's precision
+    # (SWTForward returns one tensor per level and therefore nothing for J = 0)
+    if cell['kind'] in ('dwt1f', 'dwt2f') and 'J' in cell:
+        import pytorch_wavelets as pw
+        ctor = {'dwt1f': pw.DWT1DForward, 'dwt2f': pw.DWTForward}[cell['kind']]
+        for bdt in (f32, f64):
+            for xs in (xs32, xs64):
+                case = dict(base, check='J=0', module=str(bdt), input=str(xs[0].dtype))
+                try:
+                    with util.default_dtype(bdt):
+                        m0 = ctor(J=0, wave=cell['wave'], mode=cell['mode'])
+                except Exception as e:
+                    out.append(res(core.SKIPPED, case, 'M-SHAPE.dtype', 'J=0 not constructible: %r' % (e,)))
+                    continue
+                ok0, y0 = util.call_lib(m0, xs[0].clone())
+                if not ok0:
+                    out.append(res(core.SKIPPED, case, 'M-SHAPE.dtype', 'J=0 call raised %r' % (y0,)))
+                    continue
+                ts = util.flat_outputs(y0)
+                bad = [str(t.dtype) for t in ts if t.dtype != xs[0].dtype]
+                same = len(ts) >= 1 and ts[0].shape == xs[0].shape and bool((ts[0] == xs[0]).all())
+                out.append(res(VIOLATED, case, 'M-SHAPE.dtype', 'J=0 returned dtype %s / changed values (equal=%s) for input %s' % (
+                    bad, same, xs[0].dtype)) if (bad or not same) else res(HELD, case, 'M-SHAPE.dtype', ratio=0.0))
+    return out + drain_attach(cell, recs)
 
 
-def drain_attach(cell):
+def drain_attach(cell, recs=()):
     out = []
     seen = set()
-    for v in attach.drain():
+    for v in list(recs) + attach.drain():
         if v['monitor'] not in ('M-SHAPE.dtype', 'M-DISP.precision'):
             continue            # argument / buffer immutability belongs to C15
         k = (v['monitor'], v['where'], str(v['detail'])[:80])
